@@ -3,6 +3,9 @@
 package verifpvm
 
 import (
+	"strconv"
+	"strings"
+
 	h "github.com/New-JAMneration/JAM-Protocol/internal/verifh"
 )
 
@@ -101,6 +104,98 @@ func genCutProgram(r *h.Rng) Case {
 		HP: 0x21000, HL: 0x30000, Pages: randMemPages(r, true), Tab: 64}
 }
 
+// genGapLoop: a loop whose body passes through one or two addresses that the deblob-time scan never visits
+// (the address 25 bytes behind a terminator whose skip is clamped at 24; the instruction found there is mostly
+// NOT a terminator), so that the block engine's handling of such an address is exercised on the 2nd, 3rd, ... visit
+// as well: within one invocation (plain loop) and once per invocation (an ecalli inside the loop: every round is
+// resumed behind a host call on the same Program value). Shape:
+//
+//	[load_imm rc = v; fallthrough]          optional prefix, makes the loop head a block start other than 0
+//	H: T <unmarked filler up to H+25>        T = fallthrough | branch never taken; skip(H) clamped at 24
+//	H+25: X                                  unmarked; X = the counter increment or some other instruction
+//	[second segment T' filler X']            optional
+//	[ecalli k] [other marked instructions] [increment if X was not it]
+//	branch_lt_u_imm rc, N -> H ; trap | open end
+func genGapLoop(r *h.Rng) Case {
+	a := &Asm{}
+	rc := byte(1 + r.Intn(12)) // loop counter register
+	if rc == 7 {
+		rc = 8 // r7 receives host-call results
+	}
+	start := uint64(r.Intn(3))
+	rounds := uint64(2 + r.Intn(4))
+	regs := strings.Split(randRegs(r), ",")
+	regs[rc] = strconv.FormatUint(start, 10)
+	if r.Intn(3) == 0 {
+		a.Ins(51, rc, byte(start))
+		a.Ins(1)
+	}
+	head := len(a.Code)
+	incDone := false
+	inc := []byte{149, rc | rc<<4, 1} // add_imm_64 rc, rc, 1
+	segment := func() {
+		var t []byte
+		switch r.Intn(4) {
+		case 0, 1:
+			t = []byte{1} // fallthrough
+		case 2:
+			t = []byte{83, rc | 1<<4, 0, byte(r.Intn(8))} // branch_lt_u_imm rc, 0 : never taken
+		default:
+			t = []byte{171, rc | rc<<4, byte(r.Intn(8))} // branch_ne rc, rc : never taken
+		}
+		var x []byte
+		switch k := r.Intn(10); {
+		case k < 4 && !incDone:
+			x, incDone = inc, true
+		case k < 6:
+			x = []byte{100, byte(2+r.Intn(5)) | rc<<4} // move_reg
+		case k < 8:
+			x = append([]byte{51, byte(2 + r.Intn(5))}, randImm(r, r.Intn(3))...) // load_imm
+		case k < 9:
+			x = []byte{200, rc | byte(r.Intn(13))<<4, byte(2 + r.Intn(5))} // add_64
+		default:
+			x = []byte{1} // a terminator at the unscanned address
+		}
+		ins := append([]byte{}, t...)
+		for len(ins) < 25 {
+			switch r.Intn(3) {
+			case 0:
+				ins = append(ins, 0)
+			case 1:
+				ins = append(ins, []byte{1, 51, 100, 149, 200, 10, 40, 83}[r.Intn(8)])
+			default:
+				ins = append(ins, byte(r.U64()))
+			}
+		}
+		a.Ins(append(ins, x...)...) // one bitmask bit at T; filler and X unmarked
+	}
+	segment()
+	if r.Intn(4) == 0 {
+		a.Ins(1) // terminator with exact skip, so that the second segment starts a block
+		segment()
+	}
+	if r.Intn(2) == 0 {
+		a.Ins(append([]byte{10}, leBytes([]uint64{0, 7, 63, 200, 300}[r.Intn(5)], 1+r.Intn(2))...)...)
+	}
+	for i := r.Intn(3); i > 0; i-- {
+		a.Ins(randIns(r, RandOpts{}, []byte{100, 200, 131, 210}[r.Intn(4)])...)
+	}
+	if !incDone {
+		a.Ins(inc...)
+	}
+	bpc := len(a.Code)
+	a.Ins(83, rc|1<<4, byte(start+rounds), byte(head-bpc)) // branch_lt_u_imm rc, start+rounds -> head
+	if r.Intn(4) != 0 {
+		a.Ins(0)
+	}
+	gas := int64(60 + r.Intn(200))
+	if r.Intn(5) == 0 {
+		gas = int64(r.Intn(40))
+	}
+	return Case{Blob: MkBlob(nil, 1, a.Code, a.Mask), PC: 0, Gas: gas, Regs: strings.Join(regs, ","), HP: 0x21000, HL: 0x30000,
+		Pages: randMemPages(r, false), Tab: []int{1024, 64, 1}[r.Intn(3)]}
+}
+
 // GenC02: every stream of C01 (the property's quantifier) plus the C02-only streams above.
 func GenC02(r *h.Rng, tier string, emit func(string)) {
 	st := h.Stats{}
@@ -138,6 +233,8 @@ func GenC02(r *h.Rng, tier string, emit func(string)) {
 		st.Inc("c02-ecalli-resume")
 		emit(genCutProgram(r).String())
 		st.Inc("c02-cut-last-instruction")
+		emit(genGapLoop(r).String())
+		st.Inc("c02-unscanned-address-in-loop")
 	}
 	h.EmitStats(emit, st)
 }
